@@ -125,42 +125,51 @@ class LexTables:
 
 
 def check_lexer_algorithm(ctx: RuleCtx, lt: LexTables) -> None:
-    """The folded tables are used the way `LexTables.token_of` reads them: specification in order, first match wins,
-    single characters as fallback, identifiers that are keywords become their own token.
-    Unrecognised shapes are *undecided*; only a recognised loop without the property is a violation."""
+    """The folded tables are used the way `LexTables.token_of` reads them: specifications in list order, first match wins,
+    single characters as fallback, identifiers that are keywords become their own token.  The selection loop is found by role (the loop over
+    self.token_specification, in Lexer.lex or in a helper of Lexer).  Unrecognised shapes are *undecided*."""
     mod = lt.mod
-    fn = mod.func('Lexer.lex')
-    loops = [n for n in ast.walk(fn) if isinstance(n, ast.For) and norm(n.iter) == 'self.token_specification']
-    if len(loops) != 1 or not (isinstance(loops[0].target, ast.Tuple) and len(loops[0].target.elts) == 2 and all(isinstance(x, ast.Name) for x in loops[0].target.elts)):
-        raise Undecided('Lexer.lex: token selection is not one `for (tid, regex) in self.token_specification` loop')
-    lp = loops[0]
+    cls = mod.cls('Lexer')
+    loops = [(f, n) for f in cls.body if isinstance(f, ast.FunctionDef) for n in ast.walk(f) if isinstance(n, ast.For) and norm(n.iter) == 'self.token_specification']
+    if len(loops) != 1 or not (isinstance(loops[0][1].target, ast.Tuple) and len(loops[0][1].target.elts) == 2 and all(isinstance(x, ast.Name) for x in loops[0][1].target.elts)):
+        raise Undecided('Lexer: token selection is not one `for (tid, regex) in self.token_specification` loop')
+    owner, lp = loops[0]
     tidv, regv = (x.id for x in lp.target.elts)       # type: ignore[attr-defined]
     matches = [c for c in ast.walk(lp) if isinstance(c, ast.Call) and isinstance(c.func, ast.Attribute) and c.func.attr == 'match' and norm(c.func.value) == regv and len(c.args) == 2]
     if len(matches) != 1:
-        raise Undecided('Lexer.lex: the specification loop does not try `regex.match(text, position)` exactly once')
-    hit_ifs = [s for s in lp.body if isinstance(s, ast.If)]
-    if len(hit_ifs) != 1:
-        raise Undecided('Lexer.lex: the specification loop body is not `match; if matched: ...`')
-    brk = [b for b in hit_ifs[0].body if isinstance(b, ast.Break)]
-    ctx.require(len(brk) == 1 and not hit_ifs[0].orelse, 'Lexer.lex: specifications are tried in order and the first match wins', mod, 'Lexer.lex', 'token selection: first match wins',
+        raise Undecided('Lexer: the specification loop does not try `regex.match(text, position)` exactly once')
+    hit_ifs = [s_ for s_ in lp.body if isinstance(s_, ast.If)]
+    if len(hit_ifs) != 1 or any(isinstance(s_, (ast.For, ast.While, ast.Try)) for s_ in lp.body):
+        raise Undecided('Lexer: the specification loop body is not `match; if matched: ...`')
+    stops = [b for b in hit_ifs[0].body if isinstance(b, (ast.Break, ast.Return))]
+    ctx.require(len(stops) == 1 and not hit_ifs[0].orelse, 'Lexer: specifications are tried in order and the first match wins', mod, f'Lexer.{owner.name}', 'token selection: first match wins',
                 'the token selection loop does not stop at the first matching specification: a later (shorter) specification can override `<=` / `==` / keywords', hit_ifs[0])
-    fallback = [s for s in ast.walk(ast.Module(body=lp.orelse, type_ignores=[])) if isinstance(s, ast.Assign) and norm(s.targets[0]) == tidv
-                and isinstance(s.value, ast.Subscript) and norm(s.value.value) == 'self.single_char_tokens']
+    fn = mod.func('Lexer.lex')
+    fallback = [s_ for s_ in ast.walk(fn) if isinstance(s_, ast.Assign) and isinstance(s_.targets[0], ast.Name)
+                and isinstance(s_.value, ast.Subscript) and norm(s_.value.value) == 'self.single_char_tokens']
     if len(fallback) != 1:
-        raise Undecided('Lexer.lex: single-character fallback `tid = self.single_char_tokens[char]` not found in the else branch of the specification loop')
+        raise Undecided('Lexer.lex: single-character fallback `tid = self.single_char_tokens[char]` not found')
+    guards_fb = [g for st, g in _guarded(fn.body, []) if st is fallback[0]]
+    in_else = bool(lp.orelse) and any(x is fallback[0] for x in ast.walk(ast.Module(body=lp.orelse, type_ignores=[])))
+    if not in_else and not (guards_fb and guards_fb[0]):
+        raise Undecided('Lexer.lex: cannot relate the single-character fallback to "no specification matched"')
     ctx.ok('Lexer.lex: single characters are the fallback when no specification matches')
+    tid_lex = fallback[0].targets[0].id      # type: ignore[attr-defined]
     # keyword promotion
     promo = []
     for st, guards in _guarded(fn.body, []):
-        if isinstance(st, ast.Assign) and norm(st.targets[0]) == tidv and isinstance(st.value, ast.Name):
+        if isinstance(st, ast.Assign) and norm(st.targets[0]) == tid_lex and isinstance(st.value, ast.Name):
             g = [(norm(t), v) for t, v in guards]
-            if (f"{tidv} == 'id'", True) in g:
+            if (f"{tid_lex} == 'id'", True) in g or (f"'id' == {tid_lex}", True) in g:
                 promo.append((st.value.id, g))
     if len(promo) != 1:
-        raise Undecided(f'Lexer.lex: expected one keyword promotion `{tidv} = <text>` under `{tidv} == \'id\'`, found {len(promo)}')
+        raise Undecided(f'Lexer.lex: expected one keyword promotion `{tid_lex} = <text>` under `{tid_lex} == \'id\'`, found {len(promo)}')
     v, g = promo[0]
-    ctx.require((f'{v} in self.keywords', True) in g, 'Lexer.lex: an identifier that is a keyword becomes its own token id', mod, 'Lexer.lex', 'keyword promotion',
-                f'keyword promotion `{tidv} = {v}` is guarded by {[x for x, _ in g]}; it must apply exactly to members of self.keywords', fn)
+    sets = [x for x, val in g if val and x.startswith(f'{v} in ')]
+    if not sets:
+        raise Undecided('Lexer.lex: the keyword promotion is not guarded by a membership test of the token text')
+    ctx.require(f'{v} in self.keywords' in sets, 'Lexer.lex: an identifier that is a keyword becomes its own token id', mod, 'Lexer.lex', 'keyword promotion',
+                f'keyword promotion `{tid_lex} = {v}` is guarded by {sets}; it must apply exactly to members of self.keywords', fn)
 
 
 def _guarded(body: T.List[ast.stmt], guards: T.List[T.Tuple[ast.AST, bool]]) -> T.Iterator[T.Tuple[ast.stmt, T.List[T.Tuple[ast.AST, bool]]]]:
@@ -347,7 +356,9 @@ def expected_shapes(opname: str, holder: str) -> T.List[T.Any]:
     if opname == 'PLUS' and holder == 'DictHolder':
         return [('dict', ((('const', '**'), 'HELD'), (('const', '**'), 'OTHER')))]          # merge, right operand wins
     if opname == 'PLUS' and holder == 'ArrayHolder':
-        return [('op', 'Add', ('HELD', 'OTHER')), ('op', 'Add', ('HELD', ('list', ('OTHER',))))]     # a non-list operand is appended
+        return [('op', 'Add', ('HELD', 'OTHER')), ('op', 'Add', ('HELD', ('list', ('OTHER',)))),      # a non-list operand is appended
+                ('list', (('star', 'HELD'), ('star', 'OTHER'))), ('list', (('star', 'HELD'), 'OTHER')),   # the same written as a display with unpacking
+                ('list', (('star', 'HELD'), ('star', ('list', ('OTHER',)))))]
     if opname == 'DIV' and holder.endswith('StringHolder'):
         return [('call', 'SELF._op_div', None, ('HELD', 'OTHER'), ())]                      # path join helper, checked separately
     return [('op', PYOP[opname], ('HELD', 'OTHER'))]
@@ -464,23 +475,50 @@ def r2(ctx: RuleCtx) -> None:
             if swapped is None:
                 ctx.violation(ef.mod, ef.qn, f'{target}: {fmt(v.ops[0])}', f'{target} applies {fmt(v.ops[0])}: the receiver must be one evaluated operand and the argument the other one, unholdered', v.sp.last_node)
                 continue
-            # under which condition is it swapped
-            tests = [(t, val) for t, val in v.conds if isinstance(t, tuple) and t[:2] == ('op', 'In') and t[2][0] == lookup]
+            # under which condition is it swapped: every spelling of "the operator is one of ..." on the path is read as a set constraint
             if cls == 'ArithmeticNode':
                 ctx.require(not swapped, f'{target}: left.operator_call(op, unholder(right))', ef.mod, ef.qn, f'{target}: operand roles', f'{target} applies the operator on the right operand with the left as argument', v.sp.last_node)
             else:
-                if len(tests) > 1:
-                    raise Undecided(f'{ef.qn}: several `op in (...)` tests on one path')
-                val = tests[0][1] if tests else None
-                if tests:
-                    members_t = tests[0][0][2][1]
-                    names = {_canon_member(x)[1] for x in members_t[1]} if members_t[0] in ('tuple', 'list', 'set') else None
-                    ctx.require(names == {'MesonOperator.IN', 'MesonOperator.NOT_IN'}, f'{target}: operands are reversed for exactly IN / NOT_IN', ef.mod, ef.qn,
-                                f'{target}: swap set {sorted(names) if names else fmt(members_t)}', f'operands are reversed for {names}; only `in`/`not in` take the container on the right', v.sp.last_node)
-                roles.add((val, swapped))
-                ctx.require((val, swapped) in ((True, True), (False, False)), f'{target}: {"container.operator_call(op, element)" if swapped else "left.operator_call(op, unholder(right))"} when `op in (IN, NOT_IN)` is {val}',
-                            ef.mod, ef.qn, f'{target}: operand roles when in-test is {val}: swapped={swapped}',
-                            f'with `op in (IN, NOT_IN)` = {val} the receiver is {fmt(recv)} and the argument {fmt(arg)}: operands must be reversed exactly for in / not in', v.sp.last_node)
+                inside: T.Optional[T.Set[str]] = None      # operators this path is restricted to
+                outside: T.Set[str] = set()                # operators excluded on this path
+                for t, val in v.conds:
+                    t = _canon_member(t)
+                    mem: T.Optional[T.Set[str]] = None
+                    if isinstance(t, tuple) and t[:2] in (('op', 'In'), ('op', 'NotIn')) and t[2][0] == lookup and t[2][1][0] in ('tuple', 'list', 'set'):
+                        mem = {x[1].split('.')[-1] for x in t[2][1][1] if x[0] == 'name'}
+                        if len(mem) != len(t[2][1][1]):
+                            raise Undecided(f'{ef.qn}: operator set with computed members')
+                        val = val if t[1] == 'In' else not val
+                    elif isinstance(t, tuple) and t[:2] in (('op', 'Is'), ('op', 'Eq'), ('op', 'IsNot'), ('op', 'NotEq')) and lookup in t[2]:
+                        other = t[2][1] if t[2][0] == lookup else t[2][0]
+                        if other[0] != 'name' or 'MesonOperator.' not in other[1]:
+                            raise Undecided(f'{ef.qn}: operator compared with {fmt(other)}')
+                        mem = {other[1].split('.')[-1]}
+                        val = val if t[1] in ('Is', 'Eq') else not val
+                    elif isinstance(t, tuple) and any(x == lookup for x in subterms(t)) and t != lookup:
+                        raise Undecided(f'{ef.qn}: test on the operator of unknown shape: {fmt(t)}')
+                    if mem is None:
+                        continue
+                    if val:
+                        inside = mem if inside is None else inside & mem
+                    else:
+                        outside |= mem
+                IN2 = {'IN', 'NOT_IN'}
+                if inside is not None:
+                    reach = inside - outside
+                    expect = True if reach and reach <= IN2 else False if not (reach & IN2) else None
+                else:
+                    expect = False if IN2 <= outside else None
+                    reach = {'<all but ' + ','.join(sorted(outside)) + '>'}
+                if expect is None:
+                    ctx.violation(ef.mod, ef.qn, f'{target}: operand roles for operators {sorted(reach)}: swapped={swapped}',
+                                  f'on a path taken for the operators {sorted(reach)} the receiver is {fmt(recv)} and the argument {fmt(arg)}: '
+                                  'operands must be reversed exactly for `in` / `not in`, so these operators cannot share one path', v.sp.last_node)
+                else:
+                    roles.add((expect, swapped))
+                    ctx.require(swapped is expect, f'{target}: {"container.operator_call(op, element)" if swapped else "left.operator_call(op, unholder(right))"} for {"in / not in" if expect else "the other operators"}',
+                                ef.mod, ef.qn, f'{target}: operand roles for {sorted(reach)}: swapped={swapped}',
+                                f'for the operators {sorted(reach)} the receiver is {fmt(recv)} and the argument {fmt(arg)}: operands must be reversed exactly for in / not in', v.sp.last_node)
             ctx.require(v.result == ('HOLD', v.ops[0]), f'{target}: result is holderify(operator result)', ef.mod, ef.qn, f'{target}: result {fmt(v.result)}', f'{target} returns {fmt(v.result)}', v.sp.last_node)
         ctx.floor(f'{target}: operator-applying paths', n, 1)
         if cls == 'ComparisonNode':
@@ -546,10 +584,12 @@ def r2(ctx: RuleCtx) -> None:
                     continue
                 seen_den.add(got)
                 n += 1
+                if got not in want and not _understood(got):
+                    raise Undecided(f'{holder} {opn}: the implementation computes {_fmt_den(got)}, a form this rule does not model')
                 ctx.require(got in want, f'{holder} {opn}: {_fmt_den(got)}', impl.mod, qn, f'{holder} {opn}: {_fmt_den(got)}',
                             f'the {opn} operator of {holder} computes {_fmt_den(got)}; the operator denotes {" or ".join(_fmt_den(w) for w in want)} '
                             f'(held value on the left; the container for in/not in)', sp.last_node)
-    ctx.floor('operator implementations (holder x operator x distinct result)', n, 42)
+    ctx.floor('operator implementations (holder x operator x distinct result)', n, 38)
     # the string path-join helper joins (held, other) in that order
     sm = repo.module(HOLDERS['StringHolder'])
     hf = sm.func('StringHolder._op_div')
@@ -571,6 +611,31 @@ def r2(ctx: RuleCtx) -> None:
                 sup = [t for t in subterms(r) if is_call(t) and t[2] == '.op_div' and is_call(t[3]) and t[3][2] == 'super' and t[4] == ('OTHER',)]
                 okd = okd and bool(sup)
             ctx.require(okd, f'{sub}./ is derived from StringHolder./ on the same operand', sm, f'{sub}.op_div', f'{sub} DIV', f'{sub}.op_div does not return a value derived from super().op_div(other)', impl.fn)
+
+
+def _understood(t: T.Any) -> bool:
+    """A denotation built only from operators, subscripts, displays, constants and the two operands (or the path-join helper): anything else
+    (f-strings, calls of unknown functions, comprehensions ...) is not judged."""
+    if t in ('HELD', 'OTHER'):
+        return True
+    if not isinstance(t, tuple) or not t:
+        return False
+    k = t[0]
+    if k == 'const':
+        return True
+    if k == 'op':
+        return all(_understood(x) for x in t[2])
+    if k == 'sub':
+        return _understood(t[1]) and _understood(t[2])
+    if k in ('list', 'tuple', 'set'):
+        return all(_understood(x) for x in t[1])
+    if k == 'star':
+        return _understood(t[1])
+    if k == 'dict':
+        return all((kk == ('const', '**') or _understood(kk)) and _understood(v) for kk, v in t[1])
+    if k == 'call' and t[1] == 'SELF._op_div':
+        return all(_understood(x) for x in t[3])
+    return False
 
 
 def _canon_member(t: T.Any) -> T.Any:
@@ -689,7 +754,10 @@ def r3(ctx: RuleCtx) -> None:
         outs = impl_paths(impl)
         raises = [(r, sp) for oc, r, sp in outs if oc == 'raise']
         rets = [(r, sp) for oc, r, sp in outs if oc == 'return']
-        if holder == 'DictHolder':
+        if holder == 'DictHolder' and any(any(a.kind == 'exc' and a.term.split('.')[-1] == 'KeyError' for a in sp.actions) for r, sp in raises):
+            ok = True
+            what = 'KeyError is converted to InvalidArguments'
+        elif holder == 'DictHolder':
             def present(sp: SymPath) -> T.Optional[bool]:
                 for t, v in sp.conds():
                     if t == ('op', 'NotIn', ('OTHER', 'HELD')):
@@ -707,7 +775,13 @@ def r3(ctx: RuleCtx) -> None:
                 plain = not any(isinstance(n, ast.Try) for n in ast.walk(impl.fn)) and all(not sp.conds() for r, sp in rets) and not raises
                 handles_other = any(isinstance(n, ast.ExceptHandler) for n in ast.walk(impl.fn))
                 if not plain and not handles_other:
-                    raise Undecided(f'{holder} INDEX: out-of-range handling is not the try/except IndexError idiom')
+                    # look-before-you-leap: an explicit bounds test is judged by the bounds table of C01.R9
+                    from .c01_args import _bounds_table
+                    held = 'self.range' if holder == 'RangeHolder' else 'self.held_object'
+                    _bounds_table(ctx, impl.mod, f'{impl.owner}.{impl.fn.name}', impl.fn, 'ARG1', f'len({held})', True,
+                                  lambda r: ('raise ' + r.outcome[1]) if r.outcome[0] == 'raise' else 'return ' + r.outcome[1],
+                                  f'return {held}[ARG1]', lambda r: 'raise InvalidArguments')
+                    continue
         ok = ok and all(is_call(r) and r[2].split('.')[-1] == 'InvalidArguments' for r, sp in raises)
         ctx.require(ok, f'{holder} INDEX: {what}', impl.mod, f'{impl.owner}.{impl.fn.name}', f'{holder} INDEX error conversion',
                     f'{holder} indexing does not guarantee that {what}: an out-of-range / missing index would escape as a Python exception or a wrong error', impl.fn)
